@@ -2154,6 +2154,58 @@ def stress_module(ti, flavour):
 GEN_WEIGHTS = [("genir", 30), ("cc", 25), ("spill", 25), ("copy", 20)]
 
 
+def mixed_width_c():
+    """One C function over 6-9 locals of mixed widths loaded from a long array: ternaries, small-divisor / and %, shifts, a
+    counted loop with an if/else, calls to external functions of three widths, a weighted sum at the end."""
+    from hypothesis import strategies as st
+
+    @st.composite
+    def _src(draw):
+        types = ["char", "unsigned char", "short", "int", "int", "long", "long", "unsigned int"]
+        n = draw(st.integers(6, 9))
+        vt = [draw(st.sampled_from(types)) for _ in range(n)]
+        v = lambda: "v%d" % draw(st.integers(0, n - 1))  # noqa: E731
+        k = lambda lo, hi: draw(st.integers(lo, hi))  # noqa: E731
+
+        def expr():
+            r = k(0, 9)
+            if r < 3:
+                return "(%s %s %d > %d) ? %s : %s" % (v(), draw(st.sampled_from(["+", "&", "|", "%"])), k(1, 9), k(0, 50), v(), v())
+            if r < 5:
+                return "%s %s ((%s & 7) + 1)" % (v(), draw(st.sampled_from(["/", "%"])), v())
+            if r < 7:
+                return "%s %s (%s & 3)" % (v(), draw(st.sampled_from([">>", "<<"])), v())
+            if r < 8:
+                return "%s(%s, %s)" % (draw(st.sampled_from(["gl", "gi", "gc"])), v(), v())
+            return "%s %s %s" % (v(), draw(st.sampled_from(["^", "&", "|", "+", "-", "*"])), v())
+
+        def assign(ind):
+            return "%s%s = %s;" % (ind, v(), expr())
+
+        L = ["long gl(long a, long b);", "int gi(int a, int b);", "char gc(char a, char b);", "int f(long *p) {"]
+        for i, t in enumerate(vt):
+            L.append("  %s v%d = (%s)p[%d];" % (t, i, t, i))
+        for _ in range(k(1, 4)):
+            L.append(assign("  "))
+        if k(0, 3):
+            L.append("  for (int k0 = 0; k0 < %d; k0++) {" % k(2, 4))
+            L.append("    if (%s & %d > %d) {" % (v(), k(1, 9), k(0, 40)))
+            for _ in range(k(1, 3)):
+                L.append(assign("      "))
+            L.append("    } else {")
+            for _ in range(k(1, 3)):
+                L.append(assign("      "))
+            L.append("    }")
+            L.append("  }")
+        for _ in range(k(1, 3)):
+            L.append(assign("  "))
+        L.append("  return %s;" % " + ".join("v%d*%d" % (i, 2 * i + 1) for i in range(n)))
+        L.append("}")
+        return "\n".join(L) + "\n"
+
+    return _src()
+
+
 def case_strategy(targets):
     from hypothesis import strategies as st
 
@@ -2171,6 +2223,10 @@ def case_strategy(targets):
                 gen = name
                 break
             r -= w
+        if target == "x86_64" and draw(st.integers(0, 99)) < 45:
+            # values of DIFFERENT widths (char / short / int / long) under pressure, with calls, divisions and returns that
+            # pin eax / rax: coalescing through aliasing registers (al, ax, eax, rax)
+            return {"target": target, "gen": "mixc", "kind": "c", "src": draw(mixed_width_c()), "level": draw(st.sampled_from(["1", "2", "2"]))}
         if gen == "cc" and not ti.c_ok:
             gen = "genir"
         if CAP[target].get("regs_only"):
@@ -2306,7 +2362,9 @@ def run(ctx):
     nt = len(TARGETS)
     for w in range(16):
         targets = [TARGETS[(3 * w + j) % nt] for j in range(3)]
-        args.append((subseed(ctx.seed, PID, w), n, targets, budget))
+        if "x86_64" not in targets:
+            targets.append("x86_64")  # the target with aliasing registers of four widths gets a share of every shard
+        args.append((subseed(ctx.seed, PID, w), n + 8, targets, budget))
     ctx.pmap(_worker, args)
     per = {}
     h = ctx.stats.hist
